@@ -150,6 +150,7 @@ def stepCall (s : State) (t op i : Nat) (kind : OpKind) (key : String) (exp : Na
           if exp = x.hbRev then
             pure (s.addOp { id := op, inst := i, purpose := .heartbeat, key := key, exp := exp, val := val, issued := t })
           else reject s!"heartbeat of {i} presents revision {exp}, its revision field holds {x.hbRev}"
+        else if x.lead.isSome then reject s!"instance {i} leads (term {repr x.lead}) and issues a takeover write with token {tok}"
         else if tok ≠ 0 ∧ s.usedToks.contains tok = false ∧ takeoverAllowed x exp = true then
           pure { (s.addOp { id := op, inst := i, purpose := .takeover, key := key, exp := exp, val := val, issued := t }) with
                  usedToks := tok :: s.usedToks }
